@@ -197,6 +197,8 @@ type Peer struct {
 	seq    uint32
 	closed bool
 	TS     time.Time
+	autoHB bool    // answer Heartbeat Requests of the agent
+	HBSeen []Dgram // Heartbeat Requests received from the agent (answered or not)
 }
 
 // NewPeer binds local ("127.0.0.1:0") and addresses the agent at remote ("127.7.0.1:8805").
@@ -248,6 +250,19 @@ func (p *Peer) reader() {
 		d := Decode(append([]byte(nil), buf[:n]...), time.Now())
 
 		p.mu.Lock()
+		if d.TypeNum == int(message.MsgTypeHeartbeatRequest) {
+			// agent-originated heartbeats are kept apart from the answers to the script's own requests
+			p.HBSeen = append(p.HBSeen, d)
+			auto := p.autoHB
+			p.mu.Unlock()
+
+			if auto {
+				_ = p.Send(message.NewHeartbeatResponse(d.Seq, ie.NewRecoveryTimeStamp(p.TS)))
+			}
+
+			continue
+		}
+
 		p.inbox = append(p.inbox, d)
 		p.mu.Unlock()
 	}
@@ -258,6 +273,21 @@ func (p *Peer) Close() {
 	p.closed = true
 	p.mu.Unlock()
 	p.conn.Close()
+}
+
+// SetAutoHB switches the automatic answering of the agent's Heartbeat Requests on or off.
+func (p *Peer) SetAutoHB(on bool) {
+	p.mu.Lock()
+	p.autoHB = on
+	p.mu.Unlock()
+}
+
+// HBCount returns the number of Heartbeat Requests received from the agent so far.
+func (p *Peer) HBCount() int {
+	p.mu.Lock()
+	defer p.mu.Unlock()
+
+	return len(p.HBSeen)
 }
 
 // NextSeq returns a fresh sequence number.
